@@ -417,6 +417,13 @@ public:
       } else if (auto *IV = dyn_cast<ImplicitValueInitExpr>(E)) {
         J.attribute("k", "zeroinit");
         J.attribute("t", ty(IV->getType()));
+      } else if (auto *SN = dyn_cast<SubstNonTypeTemplateParmExpr>(E)) {
+        // a non-type template parameter inside an instantiation: the argument it was replaced by
+        J.attribute("k", "cast");
+        J.attribute("ck", "NoOp");
+        J.attribute("t", ty(SN->getType()));
+        J.attributeBegin("a"); expr(SN->getReplacement()); J.attributeEnd();
+        tryConst(E);
       } else if (auto *LE = dyn_cast<LambdaExpr>(E)) {
         // a closure: its call operator is emitted as a function of its own (file-local by nature)
         J.attribute("k", "lambda");
